@@ -188,11 +188,19 @@ func checkECDSAStrictDecode(r *Report, rule string) {
 		}
 		o := r.ob(rule, shortFn(dec)+":exit:"+exitID(P, dec, x), dec, x.ret, "decode succeeds only for len(sig) == 2n, splitting at n")
 		miss, _ := x.facts.firstMissing([]factPat{fp("binop<==>(binop<*>(" + nP2 + ", 2), len($1))")}, nil)
-		_, okR := unify(mustPat("call<%>(slice($1, _(), "+nP2+", _()))"), x.results[0], bindings{})
-		_, okS := unify(mustPat("call<%>(slice($1, "+nP2+", _(), _()))"), x.results[1], bindings{})
+		os2ip := func(t *Term, slicePat string) bool {
+			// through a helper, or directly new(big.Int).SetBytes(slice)
+			if _, ok := unify(mustPat("call<%>("+slicePat+")"), t, bindings{}); ok {
+				return true
+			}
+			b, ok := unify(mustPat("call<(*math/big.Int).SetBytes>(%A, "+slicePat+")"), t, bindings{})
+			return ok && b["A"].Op == "alloc"
+		}
+		okR := os2ip(x.results[0], "slice($1, _(), "+nP2+", _())")
+		okS := os2ip(x.results[1], "slice($1, "+nP2+", _(), _())")
 		o.check(miss == "" && okR && okS, "len(sig) == 2n; r = OS2IP(sig[:n]); s = OS2IP(sig[n:])", fmt.Sprintf("exact-length fact missing: %q; r from sig[:n]: %v; s from sig[n:]: %v", truncate(miss, 120), okR, okS))
 		// OS2IP
-		if c := x.results[0]; c.Op == "call" {
+		if c := x.results[0]; c.Op == "call" && len(c.Args) == 1 {
 			if f := P.calleeOfTerm(c); f != nil {
 				rt := P.terms.successResult(f, 0)
 				okO := rt != nil && rt.Op == "call" && rt.S == "(*math/big.Int).SetBytes" && len(rt.Args) == 2 && rt.Args[0].Op == "alloc" && rt.Args[1].String() == "$0"
